@@ -376,6 +376,33 @@ pub fn run(args: &Args, out: &mut dyn Write) -> Stats {
             emit(out, case_tlv(&tlv));
         }
     }
+    // String::from_utf8 in the string TLVs: lead octets x continuation octets at the edges of the
+    // well-formedness table (thorough: every pair of octets)
+    {
+        const EDGE: [u8; 12] = [0x00, 0x7f, 0x80, 0x8f, 0x90, 0x9f, 0xa0, 0xbf, 0xc0, 0xc2, 0xf4, 0xff];
+        let all: Vec<u8> = (0..=255u8).collect();
+        let (firsts, seconds): (&[u8], &[u8]) = if args.tier == "thorough" { (&all, &all) } else { (&all, &EDGE) };
+        for &b0 in firsts {
+            for &b1 in seconds {
+                st.bump("lldp.sys.utf8.pair");
+                emit(out, case_tlv(&[10, 2, b0, b1]));
+            }
+        }
+        for b0 in 0xe0..=0xf7u8 {
+            for &b1 in EDGE.iter() {
+                for &b2 in [0x7fu8, 0x80, 0xbf, 0xc0].iter() {
+                    st.bump("lldp.sys.utf8.triple");
+                    emit(out, case_tlv(&[12, 3, b0, b1, b2]));
+                    if b0 >= 0xf0 {
+                        for &b3 in [0x7fu8, 0x80, 0xbf, 0xc0].iter() {
+                            st.bump("lldp.sys.utf8.quad");
+                            emit(out, case_tlv(&[8, 4, b0, b1, b2, b3]));
+                        }
+                    }
+                }
+            }
+        }
+    }
     if args.tier == "thorough" {
         // management address TLV: every address-length octet x every number of octets behind it
         for alen in 0..=255u8 {
